@@ -541,3 +541,67 @@ func c13RefusalsBeforeCallback(c *Ctx) {
 	}
 	c.Floor(rule, 3, "refusals of readClientHello that precede the callback")
 }
+
+// c13ExtensionListComplete: the JA3 extension section lists every extension type of the hello in wire order, repeated
+// types included. The parser collects them with one append per extension header it reads; that append must run for every
+// iteration that gets past the length checks – a condition on anything else (a "seen before" table, the type itself)
+// leaves types out of the list and the digest is that of a different hello.
+func c13ExtensionListComplete(c *Ctx) {
+	p := c.P
+	const rule = "extension-list-complete"
+	um := p.Method("services/ja3/crypto/tls", "clientHelloMsg", "unmarshal")
+	if !c.Anchor(um != nil && um.Blocks != nil, rule, "(*tls.clientHelloMsg).unmarshal") {
+		return
+	}
+	n := 0
+	for _, call := range Calls(um) {
+		cv, ok := call.(*ssa.Call)
+		if !ok {
+			continue
+		}
+		bi, ok := cv.Call.Value.(*ssa.Builtin)
+		if !ok || bi.Name() != "append" || len(cv.Call.Args) != 2 || !InLoop(cv.Block()) {
+			continue
+		}
+		if sl, isSl := cv.Type().Underlying().(*types.Slice); !isSl || !types.Identical(sl.Elem(), types.Typ[types.Uint16]) {
+			continue
+		}
+		// the appended element is the 16-bit type read from the first two bytes of the remaining data
+		el := Render(cv.Call.Args[1])
+		if !strings.Contains(el, "<< 8") {
+			continue
+		}
+		// only the extension loop: the element is built from data[0], data[1]
+		if !strings.Contains(el, "[0]") || !strings.Contains(el, "[1]") {
+			continue
+		}
+		n++
+		bad := ""
+		// the innermost loop around the append
+		var loop *Loop
+		for _, l := range Loops(um) {
+			if l.Blocks[cv.Block()] && (loop == nil || len(l.Blocks) < len(loop.Blocks)) {
+				loop = l
+			}
+		}
+		for _, dc := range DomConds(cv) {
+			if dc.If == nil || loop == nil || !loop.Blocks[dc.If.Block()] {
+				continue
+			}
+			okCond := false
+			if bo, isB := dc.V.(*ssa.BinOp); isB {
+				if _, isLen := isLenOf(bo.X); isLen {
+					okCond = true
+				}
+				if _, isLen := isLenOf(bo.Y); isLen {
+					okCond = true
+				}
+			}
+			if !okCond {
+				bad = RenderN(dc.V, 3)
+			}
+		}
+		c.Check(bad == "", rule, fmt.Sprintf("unmarshal extension append #%d", n), p.InstrPos(cv), "appended for every extension header that passes the length checks", "the extension type is only added to the list under the condition `"+bad+"`: extensions for which it does not hold (a repeated type) are missing from ClientHelloInfo.Extensions, and the recorded JA3 digest is that of a different hello")
+	}
+	c.Floor(rule, 1, "the extension loop of clientHelloMsg.unmarshal")
+}
